@@ -1,5 +1,5 @@
 """C18 — type-erased wrappers behave exactly like the object they wrap."""
-from ..c18 import AnyObjPart, WrapInsertPart, TokenAdapterPart, DirectPart
+from ..c18 import AnyObjPart, WrapInsertPart, TokenAdapterPart, DirectPart, EStreamPart
 from ..runner import run_check
 
 
@@ -18,6 +18,10 @@ def replay_case(path):
             exe = vlib.build_plain(os.path.join(HERE, "anyobj.cpp"), [], (), None, sanitize="address,undefined", name="anyobj")
             out, crashes = run_lines(exe, [case], "case ")
             model = drv.ask("ask anyobj run | " + case)
+        elif stream == "estream":
+            exe = vlib.build_plain(os.path.join(HERE, "estream.cpp"), ["inplace_stop_token.cpp"], (), None, sanitize="address,undefined", name="estream")
+            out, crashes = run_lines(exe, [case], "case ")
+            model = drv.ask("ask estream run | " + case)
         else:
             exe = evt_exe("evt_tok", "evt_tok.cpp") if stream == "tokadapter" else evt_exe()
             out, crashes = run_lines(exe, [case], "case ")
@@ -25,7 +29,7 @@ def replay_case(path):
     finally:
         drv.close()
     print("case :", case); print("impl :", out[0] if not crashes else "ABORT " + crashes[0][1]); print("model:", model)
-    bad = bool(crashes) or out[0] != model or "!!adapter" in (out[0] or "") or "!!token" in (out[0] or "") or "!!leak" in (out[0] or "")
+    bad = bool(crashes) or out[0] != model or "!!adapter" in (out[0] or "") or "!!token" in (out[0] or "") or "!!leak" in (out[0] or "") or "!!read-of-destroyed" in (out[0] or "")
     print("VIOLATION property=C18 replay=" + path if bad else "replay: no longer failing")
     return 1 if bad else 0
 
@@ -33,17 +37,21 @@ def replay_case(path):
 def run(tier, seed, replay=None):
     if replay:
         return replay_case(replay)
-    parts = [AnyObjPart(), WrapInsertPart(), TokenAdapterPart(), DirectPart()]
+    parts = [AnyObjPart(), WrapInsertPart(), TokenAdapterPart(), EStreamPart(), DirectPart()]
     return run_check(
-        "C18", tier, seed, ["UnifexModel.Props.C18"], parts,
+        "C18", tier, seed, ["UnifexModel.Props.C18", "UnifexModel.Props.C18_stream"], parts,
         rule="(anyobj) type-directed op sequences of 1..30 ops (construct in place / converting / allocator_arg, move-construct, move-assign incl. self, "
              "value-assign, swap, invoke, throwing invoke, destroy, arm-the-throwing-move; ~5% of the ops ignore the generator's picture of the slots) over "
              "tracked payloads sn/st/lg/oa on 5 basic_any_object instantiations + any_unique, plus a malformed stream (35% damaged tokens): REAL wrappers "
              "(ASan+UBSan) vs the Lean state machine, full per-op event trace equality; (wrapinsert) C05-generator sender expressions run on the real "
              "library as generated and with an any_sender_of layer inserted at a random node: identical canonical traces; (tokadapter) the same "
              "expressions with a root receiver whose stop token is a harness type: adapter unsubscribed at root completion, nothing left registered, trace "
-             "(incl. stop notifications at the leaves) equal to the Lean calculus; (direct) any_scheduler equality and type_erased_stream against the "
-             "wrapped objects. distinct non-trivial = distinct traces containing a payload move or a thrown move (anyobj) / a pending leaf or stop "
+             "(incl. stop notifications at the leaves) equal to the Lean calculus; (estream) next/fire/cleanup sequences (1..14 ops, inline and pending completions, scripted throwing element "
+             "moves in a third of the cases, ~6% protocol-ignoring and malformed ops) on a harness stream whose next() keeps a TRACKED element in its operation "
+             "state and completes with a reference to it, consumed directly and through 1 / 2 genuine layers of type_erase<Elem> (and type_erase of an erased "
+             "stream): full element-event trace equality with the Lean model, monitors read-of-destroyed / copy / double-dtor / leak-elem, and a "
+             "model-independent differential 'erased yields the values and results of the wrapped stream'; (direct) any_scheduler equality and "
+             "type_erased_stream<int> against the wrapped objects. distinct non-trivial = distinct traces containing a payload move or a thrown move (anyobj) / a pending leaf or stop "
              "notification (sender parts)",
         assumptions=["single thread: the wrappers have no internal synchronisation, all their state is owned by the caller",
                      "payload classes: 8-byte nothrow-move, 8-byte throwing-move, 72-byte, 64-byte/64-aligned; allocators: global new, counting allocator with identity",
@@ -51,11 +59,14 @@ def run(tier, seed, replay=None):
                      "any_ref and the vtable casts between holder kinds are exercised only through any_sender_of's receiver_ref / any_scheduler_ref",
                      "sender part: algorithm set and event serialisation of C05"],
         trusted_extra=["harness/evt/anyobj.cpp (tracked payloads, counting allocator, renders events)", "harness/evt/evt.cpp, harness/evt/evt_tok.cpp (harness stop token)",
-                       "harness/evt/anysched.cpp", "tools/c18.py generators and diff", "g++ 12, ASan/UBSan"],
+                       "harness/evt/anysched.cpp", "harness/evt/estream.cpp (tracked elements, harness stream keeping the element in its operation state)", "tools/c18.py generators and diff", "g++ 12, ASan/UBSan"],
         explanation="Theorems (Props/C18), any_object/any_unique for EVERY instantiation and EVERY op sequence: wrapped_destroyed_once (each payload id: at most one "
                     "dtor event ever, exactly one once all variables are destroyed, none before construction) + destroyed_exactly_once_after_cleanup, "
                     "no_copies_ever, alloc_balance (per allocator: deallocations <= allocations, difference = heap states owned, equal at the end), "
                     "inline_never_allocates, move_never_allocates, move_transfers_value / move_assign_transfers_value (the target yields the source's value; the "
                     "source keeps a null pointer or the moved-from inline remainder), self_move_assign_noop, invoke_transparent (value or exception of the wrapped "
                     "payload, inline or heap), construct_then_invoke, constructed_count. any_sender_of: erase_transparent (for every expression, leaf script and "
-                    "event sequence the wrapped run has the same outputs and root signals), via erase_transparent_step/run. Tie: differential runs described in the rule.")
+                    "event sequence the wrapped run has the same outputs and root signals), via erase_transparent_step/run. type_erased_stream (Props/C18_stream, every number "
+                    "of layers, every next/fire/cleanup sequence incl. throwing element moves): erased_stream_reads_live (the consumer never reads a destroyed element and "
+                    "always reads the element's own value), erased_stream_elements_destroyed_once, erased_stream_no_copies, erased_stream_transparent (results and values "
+                    "read equal those of the wrapped stream used directly), erased_stream_throw_becomes_error. Tie: differential runs described in the rule.")
